@@ -62,7 +62,7 @@ class RefStore:
     def spec_for(self, key: Tuple, full: bool = False) -> Dict[str, Any]:
         kind = key[0]
         if kind == "single":
-            ops = [{"op": "single", "c": key[1], "dets": list(self.detectors), "runs": list(self.detectors)}]
+            ops = [{"op": "single", "c": key[1], "dets": list(self.detectors), "runs": list(self.detectors), "isolate": True}]
             tgt = 0
         elif kind == "count":
             ops = [
